@@ -97,6 +97,20 @@ pub fn run(ctx: &mut Ctx) {
             push(ctx, 3, &format!("client API, announced modulus #{}", pi), &[un.as_ref().as_bytes(), pn.as_ref().as_bytes(), &[g], n, &b_pub, &salt, &a, &[]], out);
         }
     }
+    // the server side of the public API with stored values and arbitrary accepted client keys,
+    // including non-canonical ones (A >= N): K, M2 and the expected-M1 payload are spec values too
+    let n_srv = if ctx.quick() { 8 } else { 60 };
+    for k in 0..n_srv {
+        let u = rand_cred(&mut rng, 1 + k % 16);
+        let (v, salt): ([u8; 32], [u8; 32]) = (rng.arr(), rng.arr());
+        let (b, chal) = (rng.bytes(32), rng.bytes(16));
+        let mut a_pub: [u8; 32] = rng.arr();
+        if k % 2 == 0 { a_pub[31] |= 0xC0; } else { a_pub[31] &= 0x7f; }          // >= N  /  < N
+        let ms = [rng.arr(), [0u8; 20]];
+        let out = crate::c02::server_api(&u, v, salt, &b, a_pub, &ms, &chal);
+        let un = ns(&u); let msc: Vec<u8> = ms.iter().flat_map(|m| m.iter().copied()).collect();
+        push(ctx, 4, if k % 2 == 0 { "server API, non-canonical A >= N" } else { "server API, random A" }, &[un.as_ref().as_bytes(), &v, &salt, &b, &a_pub, &msc, &chal], out);
+    }
     ctx.sample("op=10 calculate_client_S(B, x, a, u, g=7, N' = 2^31-1) and op=2 calculate_interleaved(S with 5 low-order zero bytes)".to_string());
 
     // ---- implementation-only oracle: textbook values recomputed independently on many sessions ----
